@@ -86,6 +86,21 @@ def _jsonable(o):
     raise TypeError('not jsonable: %r' % type(o))
 
 
+def _plain(o):
+    """A violation detail as plain JSON data: whatever the code under test handed back (a reader
+    where an array was expected, an open file, ...) is replaced by its repr, so that the detail can
+    always be sent between processes and written to the replay file."""
+    def fallback(x):
+        try:
+            return _jsonable(x)
+        except TypeError:
+            return '<%s>' % repr(x)[:120]
+    try:
+        return json.loads(json.dumps(o, sort_keys=True, default=fallback))
+    except Exception:
+        return '<%s>' % repr(o)[:300]
+
+
 def cjson(o):
     return json.dumps(o, sort_keys=True, separators=(',', ':'), default=_jsonable)
 
@@ -242,7 +257,7 @@ def execute_plan(engine, plan, prop, tier='quick', alarm=True):
     except Violation as v:
         res.verdict = 'violation'
         res.signature = '%s:%s' % (prop, v.clause)
-        res.detail = v.detail
+        res.detail = _plain(v.detail)
     except RealCodeError as e:
         if e.owned:
             res.verdict = 'violation'
